@@ -490,11 +490,11 @@ def _vector_operands(rs, fn, st):
             inner = _DefOperand(rs, fn, d, val)
             s = inner.state(copy=is_copy, use_stmt=st)
             if s is not None:
-                found.append((astx.src(e), s))
+                found.append((astx.src(e), s, inner.kind))
             return
         vec_e, _ = b
         s = rs.state(fn, st, vec_e)
-        found.append((astx.src(vec_e), s))
+        found.append((astx.src(vec_e), s, kind_of(fs.canon(vec_e, at))))
 
     if isinstance(st, ast.AugAssign) and isinstance(st.op, (ast.Add, ast.Sub)):
         add(st.target)
@@ -527,6 +527,7 @@ def _leaf_operands(e):
 class _DefOperand:
     def __init__(self, rs, fn, dnode, val):
         self.rs, self.fn, self.d, self.val = rs, fn, dnode, val
+        self.kind = None
 
     def state(self, copy, use_stmt):
         # find the vector the value was read from
@@ -554,8 +555,34 @@ class _DefOperand:
         c = fs.canon(e, self.d) if isinstance(e, (ast.Name, ast.Attribute)) else None
         if not c or not kind_of(c):
             return None
+        self.kind = kind_of(c)
         where = self.d.ast if copy else use_stmt
         return self.rs.state(self.fn, where, e)
+
+
+def _no_scaling_guard(st):
+    """True if st lies on the false side of tests that together mention both scaling flags."""
+    excluded = set()
+    for a in astx.ancestors(st):
+        if isinstance(a, ast.If) and astx.in_body(st, a, 'orelse'):
+            t = a.test
+            # `if A or B:` false side excludes both; `if A:` false side excludes A
+            parts = t.values if isinstance(t, ast.BoolOp) and isinstance(t.op, ast.Or) else [t]
+            for p_ in parts:
+                pth = astx.path(p_) or ''
+                for flag in ('_has_output_scaling', '_has_resid_scaling'):
+                    if pth.endswith(flag):
+                        excluded.add(flag)
+        if isinstance(a, ast.If) and astx.in_body(st, a, 'body'):
+            t = a.test
+            parts = t.values if isinstance(t, ast.BoolOp) and isinstance(t.op, ast.And) else [t]
+            for p_ in parts:
+                if isinstance(p_, ast.UnaryOp) and isinstance(p_.op, ast.Not):
+                    pth = astx.path(p_.operand) or ''
+                    for flag in ('_has_output_scaling', '_has_resid_scaling'):
+                        if pth.endswith(flag):
+                            excluded.add(flag)
+    return excluded == {'_has_output_scaling', '_has_resid_scaling'}
 
 
 @rule('C08.state', floor=12)
@@ -575,16 +602,25 @@ def state(repo, out):
                        for c in astx.calls(f.node)):
                 continue
             for st in astx.walk_stmts(f.node.body):
-                ops = _vector_operands(rs, f, st)
-                ops = [(t, s) for t, s in ops if s is not None]
+                ops3 = [o for o in _vector_operands(rs, f, st) if o[1] is not None]
+                ops = [(t, s) for t, s, _ in ops3]
                 if len(ops) < 2:
                     continue
                 states = {s for _, s in ops}
+                kinds = {k for _, _, k in ops3 if k}
                 if len(states) > 1:
                     out.bad(f, st, 'operation mixes vectors in different scaling states: ' +
                             ', '.join(f'{t} is {s}' for t, s in ops) +
                             ' (a scaled quantity combined with a physical one leaks ref/ref0 into results)',
                             key='state-mix')
+                elif states == {'scaled'} and len(kinds) > 1 and not _no_scaling_guard(st):
+                    # outputs are scaled by ref/ref0, residuals by res_ref: in the scaled state the two
+                    # kinds are in different units unless neither scaling is active
+                    out.bad(f, st, 'operation combines an output-kind and a residual-kind vector while both are '
+                            'in the scaled state (' + ', '.join(t for t, _ in ops) + '): outputs are scaled by '
+                            'ref/ref0 and residuals by res_ref, so this is only valid when neither scaling is '
+                            'active, and the enclosing guards do not exclude _has_output_scaling and '
+                            '_has_resid_scaling both', key='state-kind-mix')
                 else:
                     out.ok(f, st, ', '.join(f'{t}:{s}' for t, s in ops))
 
